@@ -10,18 +10,36 @@ STR_EQ = "core::str::traits::<str as PartialEq<str>>::eq"
 
 
 def str_match_arms(f, cfg, ex, subject=None):
-    """[(keyword, eq block, arm head block)] for `match s { "kw" => .. }` lowered to str::eq + switch"""
+    """[(keyword, eq block, arm head block, other block)] for `match s { "kw" => .. }` and for `if s == "kw"`:
+    both are lowered to an equality call on strings followed by a switch"""
+    from . import common
+    from ..expr import resolve_promoted
     out = []
     for b in sorted(cfg.reach):
         t = f["blocks"][b]["term"]
-        if t["k"] == "call" and t["callee"].get("key") == STR_EQ:
+        if t["k"] != "call":
+            continue
+        key = t["callee"].get("key") or ""
+        kw = []
+        if key == STR_EQ:
             kw = [a.get("v") for a in t["args"] if a.get("k") == "const" and isinstance(a.get("v"), str)]
-            if len(kw) != 1:
-                continue
-            nb = t["target"]
-            sw = f["blocks"][nb]["term"]
-            if sw["k"] == "switch" and len(sw["targets"]) == 1:
-                out.append((kw[0], b, sw["otherwise"], sw["targets"][0][1]))
+        elif key.endswith("::eq") and "PartialEq" in key and len(t["args"]) == 2:
+            # `&str == &str` (and String == &str ...): the literal sits behind references / a promoted constant
+            prog = getattr(common, "CURRENT_PROG", None)
+            for a in t["args"]:
+                tr = ex.operand(a)
+                if prog is not None:
+                    tr = resolve_promoted(prog, tr)
+                while tr[0] in ("&", "*"):
+                    tr = tr[1]
+                if tr[0] == "c" and isinstance(tr[1], str) and tr[2] != "char":
+                    kw.append(tr[1])
+        if len(kw) != 1:
+            continue
+        nb = t["target"]
+        sw = f["blocks"][nb]["term"]
+        if sw["k"] == "switch" and len(sw["targets"]) == 1:
+            out.append((kw[0], b, sw["otherwise"], sw["targets"][0][1]))
     return out
 
 
@@ -83,9 +101,11 @@ def r3_r4_r5_go(ctx):
             blk = f["blocks"][x]
             for s in blk["stmts"]:
                 d = s["dst"]
-                if d is not None and len(d["p"]) == 1 and isinstance(d["p"][0], dict) and (d["p"][0].get("of") or "").endswith("::Go"):
-                    writes.append(d["p"][0]["name"])
-                    go_local = d["l"]
+                if d is not None and d["p"] and isinstance(d["p"][-1], dict) and (d["p"][-1].get("of") or "").endswith("::Go") and all(e == "deref" for e in d["p"][:-1]):
+                    # `go.field = ..` on the local Go, or `(*go).field = ..` through a `&mut Go` handed to a helper
+                    writes.append(d["p"][-1]["name"])
+                    if len(d["p"]) == 1:
+                        go_local = d["l"]
             t = blk["term"]
             if t["k"] == "call":
                 k = t["callee"].get("key") or ""
@@ -98,12 +118,15 @@ def r3_r4_r5_go(ctx):
                                 stopset = "GO_TOKENS"
                             elif y[0] == "c" and isinstance(y[1], tuple) and stopset is None:
                                 stopset = list(y[1])
-                if t["dest"]["p"] and isinstance(t["dest"]["p"][0], dict) and (t["dest"]["p"][0].get("of") or "").endswith("::Go"):
-                    writes.append(t["dest"]["p"][0]["name"])
+                if t["dest"]["p"] and isinstance(t["dest"]["p"][-1], dict) and (t["dest"]["p"][-1].get("of") or "").endswith("::Go") and all(e == "deref" for e in t["dest"]["p"][:-1]):
+                    writes.append(t["dest"]["p"][-1]["name"])
         want_field = spec["go_fields"].get(kw)
         kind = {"wtime": "parse_duration", "btime": "parse_duration", "winc": "parse_duration", "binc": "parse_duration", "movetime": "parse_duration",
                 "movestogo": "parse_u64", "depth": "parse_u64", "nodes": "parse_u64", "mate": "parse_u64", "searchmoves": "parse_moves_until_one_of_or_end"}.get(kw)
         ok = sorted(set(writes)) == [want_field] and (helpers == [kind] if kind else not helpers)
+        if not writes:
+            ctx.lost("C15.R4", "go token %r: no assignment to a field of Go is visible in its arm (the value is stored some other way)" % kw)
+            continue
         ctx.ob("C15.R4", "go|%s" % kw, ok, "" if ok else "go token %r writes field(s) %s via %s (expected field %s via %s)" % (kw, sorted(set(writes)), helpers, want_field, kind or "a constant"),
                ctx.where(f, f["blocks"][eqb]["term"]["line"]), sample={"token": kw, "field": sorted(set(writes)), "parser": helpers})
         if kw == "searchmoves":
